@@ -95,6 +95,8 @@ def same_crs_pair(rng: random.Random, kind: Optional[str] = None, ttol: float = 
         # 1.005 is "not an integer" only for tolerances below 5e-3
         paste = None if (abs(fsx - round(fsx)) < 2 * stol and abs(fsy - round(fsy)) < 2 * stol) else False
     elif kind == "mirror":
+        if rng.random() < 0.25:
+            tx = ty = 0  # mirrored about the very corner: with unit pixels at the CRS origin both grids are ones GDAL takes for "not georeferenced" (D35), and they share no pixel
         P = Affine.translation(tx, ty) * Affine.scale(rng.choice([1, -1]), rng.choice([1, -1]))
         paste, k_scale = True, 1
     elif kind == "rot":
